@@ -152,58 +152,74 @@ class AppInst:
             pass
         self.log("app_recv", **fields)
 
+    async def _exec(self, op, receive, send) -> bool:
+        """Execute one op; returns True when the program must stop (return)."""
+        name = op[0]
+        if name == "gate":
+            await self.gate.wait()
+        elif name == "recv":
+            await self._recv(receive)
+        elif name == "recv_body":
+            while not self.got_disc:
+                msg = await self._recv(receive)
+                if msg["type"] != "http.request" or not msg.get("more_body", False):
+                    break
+        elif name == "recv_disc":
+            while not self.got_disc:
+                msg = await self._recv(receive)
+                if msg["type"] in ("http.disconnect", "websocket.disconnect"):
+                    break
+        elif name == "send":
+            spec = op[1]
+            self.log("app_call", op="send", m=_loggable(spec))
+            built = build_msg(spec)
+            self.sess.note_send(self.rid, built)
+            try:
+                await send(built)
+            except Exception as error:
+                self.log("app_ret", op="send", outcome="exc", exc=type(error).__name__)
+                if len(op) > 2 and op[2] == "propagate":
+                    raise
+            else:
+                self.log("app_ret", op="send", outcome="ok")
+        elif name == "sleep":
+            await self.sess.env.sleep(op[1])
+        elif name == "state_set":
+            self.scope["state"][op[1]] = op[2]
+        elif name == "state_get":
+            self.log("app_state", key=op[1], val=str(self.scope["state"].get(op[1], "<unset>")))
+        elif name == "return":
+            return True
+        elif name == "raise":
+            raise PuppetError("scripted failure")
+        elif name == "remote":
+            # remote controlled: the harness supplies one op per token
+            queue = self.sess.remote_ops.setdefault(self.rid.split("#")[0], [])
+            while True:
+                await self.gate.wait()
+                if not queue:
+                    if self.sess.env.open_gates:
+                        await self._exec(["recv_disc"], receive, send)
+                        return True
+                    continue
+                if await self._exec(queue.pop(0), receive, send):
+                    return True
+        else:
+            raise AssertionError("unknown op %r" % (op,))
+        return False
+
     async def run(self, receive, send) -> None:
         how = "return"
         try:
             for op in self.program:
                 self.pc += 1
-                name = op[0]
-                if name == "gate":
-                    await self.gate.wait()
-                elif name == "recv":
-                    await self._recv(receive)
-                elif name == "recv_body":
-                    while not self.got_disc:
-                        msg = await self._recv(receive)
-                        if msg["type"] != "http.request" or not msg.get("more_body", False):
-                            break
-                elif name == "recv_disc":
-                    while not self.got_disc:
-                        msg = await self._recv(receive)
-                        if msg["type"] in ("http.disconnect", "websocket.disconnect"):
-                            break
-                elif name == "send":
-                    spec = op[1]
-                    self.log("app_call", op="send", m=_loggable(spec))
-                    built = build_msg(spec)
-                    self.sess.note_send(self.rid, built)
-                    try:
-                        await send(built)
-                    except Exception as error:
-                        self.log("app_ret", op="send", outcome="exc", exc=type(error).__name__)
-                        if len(op) > 2 and op[2] == "propagate":
-                            raise
-                    else:
-                        self.log("app_ret", op="send", outcome="ok")
-                elif name == "sleep":
-                    await self.sess.env.sleep(op[1])
-                elif name == "state_set":
-                    self.scope["state"][op[1]] = op[2]
-                elif name == "state_get":
-                    self.log("app_state", key=op[1], val=str(self.scope["state"].get(op[1], "<unset>")))
-                elif name == "return":
+                if await self._exec(op, receive, send):
                     return
-                elif name == "raise":
-                    how = "raise"
-                    raise PuppetError("scripted failure")
-                else:
-                    raise AssertionError("unknown op %r" % (op,))
         except PuppetError:
             how = "raise"
             raise
         except BaseException as error:  # cancellation (asyncio.CancelledError / trio.Cancelled)
-            if how != "raise":
-                how = "cancelled" if "Cancel" in type(error).__name__ else "exc:" + type(error).__name__
+            how = "cancelled" if "Cancel" in type(error).__name__ else "exc:" + type(error).__name__
             raise
         finally:
             self.done = True
